@@ -122,7 +122,7 @@ func runC16Concurrent(env *sim.Env) {
 	dev := t.Choose(6) == 5
 	customCache := t.Choose(4) != 3
 	sched := simrt.NewSched(t, nClients)
-	pools := &simrt.Pools{Tape: t, Policy: simrt.PoolFresh}
+	pools := &simrt.Pools{Tape: t, Policy: simrt.PoolAdversarial} // a Runtime goes from one execution straight to the next, also across clients
 	unhook := pools.Install()
 	defer unhook()
 	sched.Pools = pools
